@@ -29,6 +29,7 @@ class Opts:
         self.maxchan = 65535
         self.chani = 0
         self.both = False
+        self.epipe = False           # an endpoint may stop receiving (send -> EPIPE) while it keeps sending
         self.__dict__.update(k)
 
 
@@ -44,6 +45,7 @@ class Scenario:
         self.s = ts.Script(o.maxchan, o.bufsize, o.chani)
         self.t = self.s.t
         self.faulty = set()      # flows that received an injected fault
+        self.refused = set()     # (flow, endpoint) pairs whose endpoint stopped receiving (EPIPE): not a fault of the flow
         self.aborted = set()
         self.wire = []           # (end, chan, cmd, len) of every frame queued, in order, with marks
         self.nontrivial = set()
@@ -116,6 +118,12 @@ class Scenario:
                     shut_err = True
                 self.faulty.add(i)
                 self.nontrivial.add('fault-' + k)
+            elif o.epipe and rng.random() < 0.12:
+                # the endpoint has shut down its receiving side: the tunnel's next send fails with EPIPE.  That ends
+                # this direction only; the endpoint keeps sending and the other direction must stay intact.
+                send = 'p'
+                self.refused.add((i, 'dst' if end == 's' else 'app'))
+                self.nontrivial.add('reader-closed')
             self.do(('cb', end, i, Io(conn, recv, send, shut_err)))
         elif r < 0.70:
             self.do(('pre', rng.choice(['c', 's']), i))
@@ -133,6 +141,21 @@ class Scenario:
                             if fl.chan == chan:
                                 self.faulty.add(k)
                 self.do(('deliver', end, conn))
+        elif r < 0.915:
+            # one REAL runonce: some frames arrive on the mux file and some endpoint sockets are ready at once
+            end = rng.choice(['c', 's'])
+            src = t.cmux if end == 's' else t.smux
+            nfr = rng.choice([0, 1, 3, len(src.outbuf)])
+            ready = [k for k in range(len(t.flows)) if rng.random() < 0.6]
+            recv, send, shut_err = rng.choice(RECV_OK), rng.choice(SEND_OK), False
+            if o.faults and rng.random() < 0.3:
+                kind = rng.choice(['recv', 'send', 'send-epipe'])
+                recv, send = ('x', send) if kind == 'recv' else (recv, 'x' if kind == 'send' else 'p')
+                for k in ready:
+                    self.faulty.add(k)
+                self.nontrivial.add('fault-in-round')
+            self.do(('round', end, nfr, ready, Io('ok', recv, send, shut_err)))
+            self.nontrivial.add('real-round')
         elif r < 0.94:
             self.do(('idle', rng.choice(['c', 's'])))
         elif r < 0.97 and o.latency:
@@ -249,8 +272,11 @@ def oracle_complete(ctx, sc, prop, quiescent):
         if not quiescent:
             report(ctx, sc, '%s:liveness:no-quiescence-within-bound' % prop, i, 'drain', 'quiescent state', 'still changing')
             return False
+        refused = getattr(sc, 'refused', set())
         if f.app.eof_in and f.dst.eof_in:
-            if f.dst.delivered != up_w or f.app.delivered != down_w:
+            up_ok = (i, 'dst') in refused or f.dst.delivered == up_w
+            down_ok = (i, 'app') in refused or f.app.delivered == down_w
+            if not (up_ok and down_ok):
                 report(ctx, sc, '%s:liveness:bytes-lost-at-quiescence' % prop, i, 'drain',
                        'dst got %d, app got %d bytes' % (len(up_w), len(down_w)),
                        'dst got %d, app got %d bytes' % (len(f.dst.delivered), len(f.app.delivered)))
@@ -266,7 +292,7 @@ def oracle_eof_order(ctx, sc, prop, where):
             continue
         for sock, env, w, name in ((f.dst_sock, f.dst, sc.written(i, 'app'), 'dst'),
                                    (f.app_sock, f.app, sc.written(i, 'dst'), 'app')):
-            if sock is None:
+            if sock is None or (i, name) in getattr(sc, 'refused', set()):
                 continue
             other = f.app if name == 'dst' else f.dst
             # (no fault was injected on this flow) the tunnel shuts an endpoint's socket only to pass on the
@@ -339,7 +365,8 @@ def oracle_alive(ctx, sc, prop, where):
 
 
 def report(ctx, sc, key, flow, where, expected, observed):
-    ctx.violation(key, case=dict(cfg=sc.s.cfg, script=list(sc.s.ins), flow=flow, where=where),
+    ctx.violation(key, case=dict(cfg=sc.s.cfg, script=list(sc.s.ins), flow=flow, where=where,
+                                 refused=sorted(list(x) for x in getattr(sc, 'refused', set()))),
                   expected=expected, observed=observed, kind='ops')
 
 
@@ -377,6 +404,67 @@ def compare(ctx, driver_inputs, real_outputs, tag):
                 break
         if len(ctx.corr_breaks) > 8:
             return
+
+
+def reap_after_reuse(ctx, rng, prop, maxchan=1):
+    """Object lifetime vs identifier reuse: flow A finishes (its id is free again) but its handlers are still in
+    the handler lists; a new connection B is accepted and gets A's id; only then the loop drops A's handlers (their
+    wrappers are finalised).  B must be unaffected: its frames reach it, its id stays registered."""
+    o = Opts(nflows=2, steps=0, maxchan=maxchan, chani=0)
+    sc = Scenario(rng, o)
+    try:
+        t = sc.t
+        full = Io('ok', 'd65536', 's65536', False)
+        sc.do(('accept',))
+        sc.do(('deliver', 's', 'ok'))
+        sc.do(('deliver', 's', 'ok'))
+        if sc.stop or not t.flows:
+            return sc.s.ins, sc.s.outs
+        sc.env_write(0, 'app', payload(rng, 10, 1))
+        sc.do(('ae', 0))
+        sc.do(('de', 0))
+        for _ in range(12):
+            for end in ('c', 's'):
+                f = t.flows[0]
+                p, hl = (f.cproxy, t.chandlers) if end == 'c' else (f.sproxy, t.shandlers)
+                if p is not None and p in hl:
+                    sc.do(('cb', end, 0, full))
+                mux = t.cmux if end == 'c' else t.smux
+                while mux.outbuf and not sc.stop:
+                    sc.do(('deliver', 's' if end == 'c' else 'c', 'ok'))
+            f = t.flows[0]
+            if f.cproxy is not None and f.sproxy is not None and not f.cproxy.ok and not f.sproxy.ok:
+                break
+        n0 = len(t.flows)
+        sc.do(('accept',))
+        if sc.stop:
+            return sc.s.ins, sc.s.outs
+        if len(t.flows) == n0:
+            report(ctx, sc, '%s:teardown:identifier-not-reusable' % prop, 0, 'accept after flow 0 finished',
+                   'the finished flow\'s id is handed to the new connection', 'connection discarded: no free id')
+            return sc.s.ins, sc.s.outs
+        sc.do(('deliver', 's', 'ok'))
+        sc.do(('rm', 'c'))
+        sc.do(('rm', 's'))
+        i = len(t.flows) - 1
+        if not (t.cmux.channels.get(t.flows[i].chan) and t.smux.channels.get(t.flows[i].chan)):
+            report(ctx, sc, '%s:reuse:live-flow-unregistered-when-old-handler-was-dropped' % prop, i,
+                   'handlers of the finished flow dropped', 'the new flow keeps its identifier on both ends',
+                   dict(client=bool(t.cmux.channels.get(t.flows[i].chan)), server=bool(t.smux.channels.get(t.flows[i].chan))))
+            return sc.s.ins, sc.s.outs
+        sc.env_write(i, 'app', payload(rng, 3000, 5))
+        sc.env_write(i, 'dst', payload(rng, 5000, 6))
+        sc.drain()
+        sc.do(('ae', i))
+        sc.do(('de', i))
+        q = sc.drain()
+        if not sc.stop:
+            oracle_prefix(ctx, sc, prop, 'reap after reuse')
+            oracle_complete(ctx, sc, prop, q)
+        oracle_alive(ctx, sc, prop, 'run')
+        return sc.s.ins, sc.s.outs
+    finally:
+        sc.close()
 
 
 def replay_script(lines):
